@@ -123,7 +123,7 @@ def gen_op(rng, n):
 def gen_spec(rng, P=None, min_param_gates=0, max_len=6, max_n=3):
     n = rng.randint(1, max_n)
     if P is None:
-        P = rng.choice([0, 1, 1, 2, 2, 2, 3])
+        P = rng.choice([0, 1, 1, 2, 2, 2, 3, 4])
     gates = []
     L = rng.randint(max(1, min_param_gates), max_len)
     for idx in range(L):
@@ -726,7 +726,7 @@ def k_circuits(ctx: Ctx, n_cases: int):
         elif rng.random() < 0.04:
             vals = vals + [dyadic(rng)]
         state = quantum_state(spec["n"] if what != "combined" else c.qubit_count, circuit=c)
-        big = len(pm.out_params) > 5 or P > 3
+        big = len(pm.out_params) > 6 or P > 4
         analyse_mapping(ctx, what, pm, vals, state, reqs, pend, order2=not big,
                         sample={"source": what, "spec_gates": [g["k"] for g in spec["gates"]]} if i < 3 else None, spec=spec)
     compare_pending(ctx, reqs, pend)
@@ -911,7 +911,7 @@ def validate_one(ctx: Ctx, spec, c, flavour, theta, est, worst, choose):
     if len(gv) != P or dg > 1e-7 * scale:
         ctx.witness("gradient-value", f"parameter-shift gradient differs from the analytic derivative by {dg:.3g}", case,
                     {"real": [str(x) for x in gv], "analytic": [str(x) for x in gt]})
-    if P <= 3 and len(c09deriv.param_gates(spec)) <= 5:
+    if P <= 5 and len(c09deriv.param_gates(spec)) <= 6:
         try:
             if choose():
                 h = H.parameter_shift_hessian_estimates(op, state, theta, est)
@@ -988,7 +988,7 @@ def validate(ctx: Ctx, budget_s: float, max_cases: int):
                     g["ang"] = {"p": perm[g["ang"]["p"]]}
             c, flavour = build_linear(spec), "linear-permuted"
         elif r < 0.65:
-            spec = gen_spec(rng, P=rng.choice([1, 2, 2, 3]), min_param_gates=1)
+            spec = gen_spec(rng, P=rng.choice([1, 2, 2, 3, 4, 5]), min_param_gates=1)
             c, flavour = build_linear(spec), "linear"
         elif r < 0.8:
             spec = primitive_spec(rng)
